@@ -1,7 +1,7 @@
 /-
 Driver for C01: one `Uniflow.Writer.Step` per line, answered with what the step shows.
 
-  link r | unlink r | write v | ans r n | ans r e k | ans r v k | pop r <n | e k | v k> | deliver r k |
+  link r | unlink r | write v | ans r n | ans r e k | ans r v k | ans r j k1 k2 … (joined error) | pop r <n | e k | v k> | deliver r k |
   closer r | drop r | closew | writeh v r1 r2 …
 
   output:  <ret>{ d<r>:<v>}{ | <resp>}
@@ -22,6 +22,7 @@ def parseAns : List String → Option Ans
   | ["n"] => some .none
   | ["e", k] => k.toNat?.map Ans.err
   | ["v", k] => k.toNat?.map Ans.val
+  | "j" :: ks => (ks.mapM String.toNat?).map Ans.errs      -- an error whose error is errors.Join of the leaves e<k>…
   | _ => none
 
 def parseStep : List String → Option Step
